@@ -75,6 +75,10 @@ def enums():
 _want_cache = {}
 
 
+_want_calls = 0
+_scratch_want: list = []
+
+
 def want_arg(want):
     """want: None | list of (instrument index, difficulty index).
 
@@ -86,6 +90,15 @@ def want_arg(want):
     key = tuple((int(i), int(d)) for i, d in want)
     if key not in _want_cache:
         _want_cache[key] = [(ins[i], dif[d]) for i, d in key if i < len(ins) and d < len(dif)]
+    global _want_calls
+    _want_calls += 1
+    if _want_calls % 3 == 0 and threading.current_thread() is threading.main_thread():
+        # … every third time (main thread only: the list is edited here, between parses, never during one) one scratch list that the "application" keeps and edits in place between parses …
+        _scratch_want[:] = _want_cache[key]
+        return _scratch_want
+    if _want_calls % 3 == 1:
+        # … and every third time a brand-new list that is dropped after the parse (its address is free for the next selection)
+        return list(_want_cache[key])
     return _want_cache[key]
 
 
@@ -203,6 +216,17 @@ def parse(text: str, want=None):
         dctx = dm.__enter__()
         dctx.prec = 5
         dctx.rounding = decimal.ROUND_DOWN
+    # ... nor on a parse that failed just before in the same thread: every third parse is preceded by the parse of a damaged sibling of
+    # the same text (a failed parse leaves nothing behind: no half-filled buffer, cursor or header state)
+    import zlib
+    _h = zlib.crc32(text.encode("utf-8", "replace"))  # by the text, not by a counter: a replay of the text meets the same sibling
+    if _h % 3 == 1:
+        for bad in damaged_siblings(text, _h // 3):
+            try:
+                Chart.from_file(io.StringIO(bad, newline=""), want_tracks=want_arg(want))
+            except Exception:  # noqa: BLE001
+                pass
+        _tls.sink = []
     try:
         c = Chart.from_file(io.StringIO(text, newline=""), want_tracks=want_arg(want))
         return c, None, _tls.sink
@@ -218,6 +242,45 @@ def parse(text: str, want=None):
         sink = _tls.sink
         _tls.sink = None
         _tls.last = sink
+
+
+def damaged_siblings(text: str, k: int):
+    """a few texts that differ from `text` by one injury, each failing at another stage of the parse (none may succeed: that is fine)"""
+    nl = "\r\n" if "\r\n" in text else "\n"
+    lines = text.split(nl)
+    import re as _re
+    out = []
+    note = next((i for i, l in enumerate(lines) if _re.match(r"\s*\d+ = N [0-4] \d+\s*$", l)), None)
+    ev = next((i for i, l in enumerate(lines) if _re.match(r"\s*\d+ = E ", l)), None)
+    bpm = [i for i, l in enumerate(lines) if _re.match(r"\s*\d+ = B \d+\s*$", l)]
+    kind = k % 6
+    if kind == 0 and note is not None:
+        # the track's first note is forced (ValueError while the first event is being built) …
+        tick = lines[note].split("=")[0].strip()
+        out.append(nl.join(lines[:note + 1] + [f"  {tick} = N 5 0"] + lines[note + 1:]))
+    elif kind == 1 and bpm:
+        # … the tempo section goes backwards after its first events …
+        out.append(nl.join(lines[:bpm[-1] + 1] + ["  0 = B 90000"] + lines[bpm[-1] + 1:]))
+    elif kind == 2 and ev is not None:
+        # … an event line whose tick has more digits than int() converts …
+        out.append(nl.join(lines[:ev + 1] + ["  " + "7" * 5000 + lines[ev][lines[ev].index(" = "):]] + lines[ev + 1:]))
+    elif kind == 3:
+        # … the file is cut off inside its last section (and once more right after a header) …
+        last = max((i for i, l in enumerate(lines) if l == "}"), default=None)
+        if last is not None:
+            out.append(nl.join(lines[:last]))
+        hdr = max((i for i, l in enumerate(lines) if l.startswith("[")), default=None)
+        if hdr is not None:
+            out.append(nl.join(lines[:hdr + 1]))
+    elif kind == 4 and note is not None:
+        # … the first note on another lane, then a note so far out that its time does not fit a timedelta (OverflowError after the first
+        # event of the track was built) …
+        first = _re.sub(r"= N ([0-4]) ", lambda m: f"= N {(int(m.group(1)) + 1) % 5} ", lines[note], count=1)
+        out.append(nl.join(lines[:note] + [first, "  " + "9" * 30 + " = N 0 0"] + lines[note + 1:]))
+    elif kind == 5 and bpm:
+        # … a zero tempo in the middle of the map.
+        out.append(nl.join(lines[:bpm[0] + 1] + [_re.sub(r"\d+ = B \d+", lambda m: str(int(m.group().split(" = ")[0]) + 1) + " = B 0", lines[bpm[0]], count=1)] + lines[bpm[0] + 1:]))
+    return out
 
 
 def run_chart(text: str, want=None) -> str:
